@@ -137,3 +137,14 @@ EXPLANATION += (" Difference form (E2f-difference): the RBF kernel depend on the
                 "algebraically equal expansion |x|^2 + |y|^2 - 2 x.y cancels catastrophically for data with a large common offset "
                 "(distinct points at distance 0, K = 1 or K > 1, negative squared distances).")
 TECHNIQUE += "; difference-form provenance rule"
+
+
+# ------------------------------------------------------------------ generic: rows/cols (outer/inner) mix-up of locally allocated buffers
+_run_pre_dimension = run
+DIMENSION_FILES = ['src/svm/mod.rs', 'src/svm/svc.rs', 'src/svm/svr.rs']
+
+
+def run(ck, prog):
+    _run_pre_dimension(ck, prog)
+    from sa import dimension
+    dimension.run_rule(ck, prog, set(DIMENSION_FILES))
